@@ -207,19 +207,24 @@ def fresh_state(ctx, rule="C19.R6"):
     rep.analysed(run)
     pass_impls = [im for im in F.impls if im.get("trait") == "linter::Pass"]
     # calls of Pass methods that dominate the visit_program call, per body of Linter::run
-    pre_methods = set()
+    # (in Linter::run itself, its closures, and the private helpers of the same file it hands the pass to; a method counts only if
+    # it precedes *every* walk)
+    pre_methods = None
     n_vp = 0
-    for body in F.with_closures(run):
+    for body in [b for b in common.bodies_with_helpers(F, run, depth=1) if b.file == run.file]:
         vps = [(bi, t) for bi, t in body.calls() if t["callee"].get("name") == "visit_program"]
         for vb, vt in vps:
             n_vp += 1
+            here = set()
             for bi, t in body.calls():
                 c = t["callee"]
                 if bi != vb and body.dominates(bi, vb) and (c.get("trait") == "linter::Pass" or (c.get("def") or "").startswith("linter::Pass::")):
                     r1 = {d for d, p in origins(body, t["args"][0])}
                     r2 = {d for d, p in origins(body, vt["args"][0])}
                     if r1 == r2:
-                        pre_methods.add(c.get("name"))
+                        here.add(c.get("name"))
+            pre_methods = here if pre_methods is None else (pre_methods & here)
+    pre_methods = pre_methods or set()
     rep.floor("C19.R6.run", n_vp, 1, "visit_program calls in Linter::run")
     n = 0
     for im in pass_impls:
